@@ -46,7 +46,7 @@ inductive Cb where
   | build (c : EvId)         -- Condition._build_value of condition c
   | trigPut (r : ResId)      -- BaseResource._trigger_put
   | trigGet (r : ResId)      -- BaseResource._trigger_get
-  deriving BEq, Inhabited, Repr
+  deriving DecidableEq, Inhabited, Repr
 
 inductive Kind where
   | plain
@@ -58,7 +58,7 @@ inductive Kind where
   | put (r : ResId)
   | get (r : ResId)
   | sentinel
-  deriving BEq, Inhabited, Repr
+  deriving DecidableEq, Inhabited, Repr
 
 /-- the data a resource request carries (`Request`, `PriorityRequest`, `Release`,
 `ContainerPut/Get`, `StorePut/Get`, `FilterStoreGet`) -/
@@ -102,7 +102,9 @@ structure ResRec where
   users : List EvId := []
   level : Int := 0
   items : List Int := []
-  deriving Inhabited
+
+/-- what `resources.getD` yields for an index that is not a resource: an empty unbounded Resource -/
+instance : Inhabited ResRec := ⟨{ kind := .resource, capacity := none }⟩
 
 /-- kernel API calls a process body can make -/
 inductive Call (τ σ : Type) where
@@ -201,9 +203,32 @@ def addCb (s : KState τ σ) (e : EvId) (cb : Cb) : KState τ σ :=
   let r := s.ev e
   s.setEv e { r with cbs := r.cbs.map (· ++ [cb]) }
 
+/-! ### leaf updates of an event record (each is one attribute assignment of the Python code) -/
+
+/-- `event._ok, event._value = …` -/
+def setOut (s : KState τ σ) (e : EvId) (o : Outcome) : KState τ σ := s.setEv e { s.ev e with out := some o }
+/-- `event._defused = True` -/
+def defuse (s : KState τ σ) (e : EvId) : KState τ σ := s.setEv e { s.ev e with defused := true }
+/-- `condition._count += 1` -/
+def bumpCount (s : KState τ σ) (c : EvId) : KState τ σ := s.setEv c { s.ev c with count := (s.ev c).count + 1 }
+/-- `request.usage_since = now` -/
+def setUsage (s : KState τ σ) (e : EvId) : KState τ σ :=
+  s.setEv e { s.ev e with req := (s.ev e).req.map fun rq => { rq with usageSince := some s.now } }
+/-- `event.callbacks.remove(cb)` (first occurrence; no effect on a processed event) -/
+def eraseCb (s : KState τ σ) (e : EvId) (cb : Cb) : KState τ σ :=
+  s.setEv e { s.ev e with cbs := (s.ev e).cbs.map (·.erase cb) }
+
 /-- `Event.succeed` / `Event.fail` / `trigger` on an untriggered event: set the outcome, schedule NORMAL now -/
 def trigger (s : KState τ σ) (e : EvId) (o : Outcome) : KState τ σ :=
-  (s.setEv e { s.ev e with out := some o }).schedule e NORMAL Num.zero
+  (s.setOut e o).schedule e NORMAL Num.zero
+
+/-! ### leaf updates of a resource record -/
+
+def setUsers (s : KState τ σ) (r : ResId) (l : List EvId) : KState τ σ := s.setRes r { s.res r with users := l }
+def setLevel (s : KState τ σ) (r : ResId) (x : Int) : KState τ σ := s.setRes r { s.res r with level := x }
+def setItems (s : KState τ σ) (r : ResId) (l : List Int) : KState τ σ := s.setRes r { s.res r with items := l }
+def setPutQ (s : KState τ σ) (r : ResId) (l : List EvId) : KState τ σ := s.setRes r { s.res r with putQ := l }
+def setGetQ (s : KState τ σ) (r : ResId) (l : List EvId) : KState τ σ := s.setRes r { s.res r with getQ := l }
 
 end KState
 
